@@ -150,6 +150,74 @@ def t_scalar(eng):
     eng.cover('scalar')
 
 
+
+# ---------------------------------------------------------------- the load loop executed for small models (any implementation)
+def t_matrix_loads_small(eng):
+    """the real compute_impedance_matrix_loads on a two-pulse model with two load objects: the first attached to pulse 0 TWICE
+    (a load named on one pulse by two options acts as two equal loads in series) or to pulses 0 and 1, the second to pulse 1;
+    free space, or ideal ground with pulse 0 grounded.  Contract: every attachment (load, pulse) adds -(g/m) Z(load, pulse) j to
+    the diagonal element of its pulse, g = 2 for a grounded pulse over ground, and nothing else changes.  The fold unit above
+    proves the loops as written; this one holds for any way of writing them (e.g. one vectorised update per load)."""
+    n = P + '/compute_impedance_matrix_loads[small model]/'
+    m = SObj('Mininec', label='m')
+    mm = fresh_real('m')
+    eng.assume(r_cmp('>', mm, 0))
+    f = fresh_real('f')
+    ground = eng.choose(2) == 1
+    twice = eng.choose(2) == 1
+    pulses = []
+    for k in range(2):
+        pk = SObj('Pulse', label='p%d' % k)
+        pk.fields.update({'idx': k, 'ground': NDArr([bool(ground and k == 0), False])})
+        pulses.append(pk)
+    Z0 = [[fresh_cx('Z%d%d' % (i, j)) for j in range(2)] for i in range(2)]
+    m.fields.update({'m': mm, '_f': f, 'Z': NDArr([list(r) for r in Z0])})
+    if ground:
+        med = SObj('Medium', label='ideal')
+        med.fields['is_ideal'] = True
+        m.fields['media'] = SList([('conc', [med])])
+    else:
+        m.fields['media'] = None
+    eng.inline.add('Mininec.f')
+    la, lb = SObj('Impedance_Load', label='la'), SObj('Impedance_Load', label='lb')
+    la.fields['pulses'] = SList([('conc', [pulses[0], pulses[0]] if twice else [pulses[0], pulses[1]])])
+    lb.fields['pulses'] = SList([('conc', [pulses[1]])])
+    m.fields['loads'] = SList([('conc', [la, lb])])
+    zval = {}
+
+    def imp(e, a, k):
+        key = (a[0].label, a[2].label)
+        if key not in zval:
+            zval[key] = fresh_cx('z_%s_%s' % key)
+        return zval[key]
+    for q in ('_Load.impedance', 'Impedance_Load.impedance', 'Laplace_Load.impedance', 'Skin_Effect_Load.impedance', 'Insulation_Load.impedance'):
+        eng.summaries[q] = imp
+    eng.call_qual('Mininec.compute_impedance_matrix_loads', [m])
+    eng.cover('matrix-loads-small-%d-%d' % (ground, twice))
+    Z = m.fields.get('Z')
+    ok = isinstance(Z, NDArr) and Z.shape == (2, 2)
+    eng.oblige(n + 'matrix-keeps-its-shape', ok)
+    if not ok:
+        return
+    want = [[Z0[i][j] for j in range(2)] for i in range(2)]
+    for ld in (la, lb):
+        for pk in ld.fields['pulses'].concrete():
+            g = 2 if (ground and pk.fields['idx'] == 0) else 1
+            z = zval.get((ld.label, pk.label))
+            if z is None:
+                eng.oblige(n + 'every-attachment-is-evaluated', False, detail='%s on %s' % (ld.label, pk.label))
+                continue
+            j = pk.fields['idx']
+            want[j][j] = c_add(want[j][j], c_mul(c_mul(to_cx(r_div(-g, mm)), z), CX(0, 1)))
+    for i in range(2):
+        for j in range(2):
+            eng.oblige(n + ('every-attachment-adds-its-load-to-the-diagonal-of-its-pulse' if i == j else 'off-diagonal-untouched'),
+                       c_eq(to_cx(Z.data[i][j]), want[i][j]))
+
+
+U_ML2 = Unit(P + '/compute_impedance_matrix_loads-small', ['Mininec.compute_impedance_matrix_loads'], t_matrix_loads_small, SCH,
+             notes='bounded(shape): two pulses, two load objects, one of them attached twice to the same pulse or once to each pulse; values symbolic')
+
 U_SCALAR = Unit(P + '/lemma-scalar', [], t_scalar, SCH, kind='lemma')
 
 
@@ -789,4 +857,9 @@ U_FIXD = Unit(P + '/Mininec.fix_distributed_loads', ['Mininec.fix_distributed_lo
               canaries=[Canary('distributed-load-attached-from-one-side-only', 'Mininec.fix_distributed_loads', _OneSided,
                                [P + '/Mininec.fix_distributed_loads/'])])
 
-UNITS = [U_ML, U_SCALAR, U_LEAN, U_LAP, U_LAP2, U_RLC, U_TRAP, U_SIMPLE, U_DVECS, U_SKIN, U_SKIN_INIT, U_INS, U_INS2, U_GR, U_FSET, U_FIXD]
+UNITS = [U_ML, U_ML2, U_SCALAR, U_LEAN, U_LAP, U_LAP2, U_RLC, U_TRAP, U_SIMPLE, U_DVECS, U_SKIN, U_SKIN_INIT, U_INS, U_INS2, U_GR, U_FSET, U_FIXD]
+
+
+# a load acts on the pulses it is attached to: which pulses those are (absolute number, row of an object, all pulses of the
+# object with a TAG, every pulse) is the contract of Mininec.register_load, stated with C17
+EXTRA_UNITS = [('contracts.C17', 'U_REG_LOAD')]
